@@ -73,16 +73,16 @@ func (e *Exec) evalLets(env *cenv, ct *FuncContract) {
 }
 
 type VerifyResult struct {
-	Fn       *ssa.Function
-	Ct       *FuncContract
-	Obls     []*Obligation
-	Unsup    string
-	Paths    int
-	Returns  int
-	Exec     *Exec
-	Diag     []string
-	NoDecr   []string // loops without a variant
-	Bounded  []string
+	Fn      *ssa.Function
+	Ct      *FuncContract
+	Obls    []*Obligation
+	Unsup   string
+	Paths   int
+	Returns int
+	Exec    *Exec
+	Diag    []string
+	NoDecr  []string // loops without a variant
+	Bounded []string
 }
 
 // verifyFunction proves fn against its contract (implicit obligations + ensures).
@@ -940,9 +940,9 @@ func (e *Exec) determinedCheck(fn *ssa.Function, ct *FuncContract, args []Val, e
 			k := c.Var("in.$k", BV(64))
 			// primed path conditions
 			type pp struct {
-				pcs   []*Term
-				prim  []*Term
-				dep   bool
+				pcs  []*Term
+				prim []*Term
+				dep  bool
 			}
 			var ps []pp
 			for _, o := range outs {
